@@ -152,8 +152,10 @@ let print_indexes (id : string) (cf : (n -> n -> string) option) (idxs : index_d
       | Ok d ->
         let ih = d.id_header in
         let name = string_of_bytes ih.ix_name in
-        Printf.fprintf out "%s index %s store=%s offset=%s count=%s\n" id name
-          (string_of_n ih.ix_store) (string_of_n ih.ix_offset) (string_of_n ih.ix_count);
+        let free = ibytes ih.ix_free in
+        Printf.fprintf out "%s index %s store=%s offset=%s count=%s%s\n" id name
+          (string_of_n ih.ix_store) (string_of_n ih.ix_offset) (string_of_n ih.ix_count)
+          (if List.for_all (fun b -> b = 0) free then "" else " free=" ^ hex_of_bytes free);
         (match d.id_store with
          | Err e -> Printf.fprintf out "%s store %s %s\n" id name (show_res_err e)
          | Ok (ly, entries) ->
